@@ -2,9 +2,9 @@
    [toks_node d]: the written tokens of a node, each with its source text and the callbacks an ideal tokenizer
    fires for it; [write doc] is the concatenation of the sources.  [simple_doc]: the sub-grammar for which
    Proofs/TokenizerBridge.v proves that the tokenizer model fires exactly those callbacks:
-   elements and void elements with lower-case names, script / style elements with raw text free of '<', attributes written  name=DQ value DQ  (DQ the double
-   quote; value without DQ and '&') or as a bare name, lower-case attribute names, text without '<' and '&',
-   references written with their ';', comments without '-', processing instructions and doctypes (spelled DOCTYPE or
+   elements and void elements with lower-case names, script / style elements with raw text free of '<', attributes written  name=Q value Q  (Q the double quote, or the single quote when
+   the value contains a double quote; value without '&') or as a bare name, lower-case attribute names, text without '<' and '&',
+   references written with their ';', comments without '--', processing instructions and doctypes (spelled DOCTYPE or
    doctype) without '>', CDATA sections (spelled CDATA[ or cdata[) without ']'; no marked sections other than CDATA.  No proofs in this file. *)
 From Coq Require Import List NArith Bool Arith.
 From BS Require Import Base.Sexp Base.Types Base.Reader Model.Adapter Model.Tokenizer Spec.DocSpec.
@@ -13,11 +13,15 @@ Open Scope N_scope.
 
 (* WRaw n a s: a script / style element with its raw text, <n ...>s</n> (two iterations of the tokenizer's loop, the
    second one in cdata mode) *)
-Inductive wtok := WText (s : str) | WCons (src : str) (evs : list tev) | WRaw (n : str) (a : list (str * option str)) (s : str).
+Inductive wtok := WText (s : str) | WCons (src : str) (evs : list tev)
+  | WRaw (n : str) (a a' : list (str * option str)) (s : str).     (* a: the attributes as written, a': as reported *)
 
 (* attributes: each preceded by one blank, written name=DQ value DQ or as the bare name (DQ: the double quote):
    <n k=DQ v DQ d>   <n k=DQ v DQ d/> *)
-Definition val_src (v : option str) : str := match v with Some x => 61 :: 34 :: x ++ [34] | None => [] end.
+(* the quote: the double quote unless the value contains one (quoted_attribute_value) *)
+Definition quote_of (x : str) : N := if memN 34 x then 39 else 34.
+Definition val_src (v : option str) : str :=
+  match v with Some x => 61 :: quote_of x :: x ++ [quote_of x] | None => [] end.
 Definition attr_src (kv : str * option str) : str := fst kv ++ val_src (snd kv) ++ [32].     (* one that is not the last *)
 Fixpoint asrc (a : list (str * option str)) : str :=
   match a with
@@ -32,12 +36,12 @@ Definition w_self (n : str) (a : list (str * option str)) : str := 60 :: n ++ at
 Definition w_end (n : str) : str := 60 :: 47 :: n ++ [62].         (* </n> *)
 
 Definition tok_src (t : wtok) : str :=
-  match t with WText s => s | WCons s _ => s | WRaw n a s => w_start n a ++ s ++ w_end n end.
+  match t with WText s => s | WCons s _ => s | WRaw n a _ s => w_start n a ++ s ++ w_end n end.
 Definition tok_evs (t : wtok) : list tev :=
   match t with
   | WText s => [TData s]
   | WCons _ e => e
-  | WRaw n a s => TStart n a :: match s with [] => [] | _ => [TData s] end ++ [TEnd n]
+  | WRaw n _ a' s => TStart n a' :: match s with [] => [] | _ => [TData s] end ++ [TEnd n]
   end.
 
 Fixpoint toks_node (d : dnode) : list wtok :=
@@ -58,8 +62,8 @@ Fixpoint toks_node (d : dnode) : list wtok :=
       let generic := WCons (w_start n a) [TStart n a] :: flat_map toks_node kids ++ [WCons (w_end n) [TEnd n]] in
       if memS n cdata_content_elements then
         match kids with
-        | [] => [WRaw n a []]
-        | [DText (c :: s)] => [WRaw n a (c :: s)]
+        | [] => [WRaw n a a []]
+        | [DText (c :: s)] => [WRaw n a a (c :: s)]
         | _ => generic
         end
       else generic
@@ -73,10 +77,11 @@ Fixpoint no_adj_text (l : list wtok) : bool :=
   | [] => true
   | WText _ :: r => match r with WText _ :: _ => false | _ => no_adj_text r end
   | WCons _ _ :: r => no_adj_text r
-  | WRaw _ _ _ :: r => no_adj_text r
+  | WRaw _ _ _ _ :: r => no_adj_text r
   end.
 
-Definition lower_or_digit (c : N) : bool := is_lower c || is_digit c.
+(* the characters of a name after the first: lower-case letters, digits,  - . : _ *)
+Definition lower_or_digit (c : N) : bool := is_lower c || is_digit c || memN c [45; 46; 58; 95].
 Definition simple_name (n : str) : bool :=
   match n with
   | c :: r => is_lower c && forallb lower_or_digit r && negb (memS n cdata_content_elements)
@@ -91,11 +96,19 @@ Definition lit_doctype_sp : str := [100; 111; 99; 116; 121; 112; 101; 32].      
 Definition lit_DOCTYPE_sp : str := [68; 79; 67; 84; 89; 80; 69; 32].            (* "DOCTYPE " *)
 Definition lit_cdata_open : str := [99; 100; 97; 116; 97; 91].                  (* "cdata[" *)
 Definition no_char (c : N) (s : str) : bool := forallb (fun x => negb (x =? c)) s.
+(* no two consecutive '-' *)
+Fixpoint no_dd (s : str) : bool :=
+  match s with
+  | [] => true
+  | c :: r => negb ((c =? 45) && match r with d :: _ => d =? 45 | [] => false end) && no_dd r
+  end.
+(* an attribute name: a lower-case letter, '_' or ':' first, then lower-case letters, digits,  - . : _ *)
+Definition attr_start (c : N) : bool := is_lower c || (c =? 95) || (c =? 58).
 Definition simple_attr_name (k : str) : bool :=
-  match k with c :: r => is_lower c && forallb lower_or_digit r | [] => false end.
+  match k with c :: r => attr_start c && forallb lower_or_digit r | [] => false end.
 (* an attribute the writer can lay out as  name=DQ value DQ  or as a bare name *)
 Definition quoted_attr (kv : str * option str) : bool :=
-  simple_attr_name (fst kv) && match snd kv with Some x => no_char 34 x | None => true end.
+  simple_attr_name (fst kv) && match snd kv with Some x => negb (memN 34 x && memN 39 x) | None => true end.
 Definition quoted_attrs (a : list (str * option str)) : bool := forallb quoted_attr a.
 (* ... whose value moreover contains no reference *)
 Definition simple_attr (kv : str * option str) : bool :=
@@ -107,7 +120,7 @@ Fixpoint simple_node (d : dnode) : bool :=
   | DText s => match s with [] => false | _ => forallb not_interesting s end
   | DCharref n => simple_charref n
   | DEntity n => match n with c :: r => is_alpha c && forallb is_namechar r | [] => false end
-  | DComment s => no_char 45 s
+  | DComment s => no_dd s
   | DDoctype kw s => (str_eqb kw lit_DOCTYPE_sp || str_eqb kw lit_doctype_sp) && no_char 62 s
   | DCdata kw s => (str_eqb kw s_cdata_open || str_eqb kw lit_cdata_open) && no_char 93 s
   | DDecl _ => false
@@ -129,3 +142,36 @@ Definition simple_doc (doc : list dnode) : bool :=
 
 (* the ideal callbacks of Spec/DocSpec.v without positions *)
 Definition tevs_of (doc : list dnode) : list tev := flat_map tok_evs (toks_of doc).
+
+(* ---- the wider sub-grammar: attribute values may contain references ----
+   What is written between the quotes is the value as WRITTEN; the document the text stands for has html.unescape of it
+   ([udoc u]).  *)
+Definition uv (u : str -> str) (a : list (str * option str)) : list (str * option str) :=
+  map (fun kv => (fst kv, option_map (unesc_value u) (snd kv))) a.
+Fixpoint udoc_node (u : str -> str) (d : dnode) : dnode :=
+  match d with
+  | DVoid n a p sp => DVoid n (uv u a) p sp
+  | DSelf n a p => DSelf n (uv u a) p
+  | DElem n a p kids => DElem n (uv u a) p (map (udoc_node u) kids)
+  | _ => d
+  end.
+Definition udoc (u : str -> str) (doc : list dnode) : list dnode := map (udoc_node u) doc.
+
+Fixpoint wider_node (d : dnode) : bool :=
+  match d with
+  | DVoid n a _ _ => simple_name n && quoted_attrs a
+  | DSelf n a _ => simple_name n && quoted_attrs a
+  | DElem n a _ kids =>
+      if memS n cdata_content_elements then
+        raw_name n && quoted_attrs a &&
+        match kids with
+        | [] => true
+        | [DText (c :: s)] => no_char 60 (c :: s)
+        | _ => false
+        end
+      else simple_name n && quoted_attrs a && forallb wider_node kids
+  | _ => simple_node d
+  end.
+Definition wider_doc (doc : list dnode) : bool :=
+  forallb wider_node doc && no_adj_text (toks_of doc).
+
